@@ -239,6 +239,10 @@ func main() {
 		noOrient = true
 		c := NewCtx("adhoc", tier, repo, verif)
 		fmt.Print(orientGenSource(c.G()))
+	case "condgen":
+		noCondSplit = true
+		c := NewCtx("adhoc", tier, repo, verif)
+		fmt.Print(condGenSource(c.G()))
 	case "rolesgen":
 		c := NewCtx("adhoc", tier, repo, verif)
 		noRoles = true
